@@ -7,6 +7,8 @@ R6.2 cache protocol of RTDCBase._get_ancillary_feature_data
 R6.3 availability (`__contains__`) and access (`__getitem__`) consult the
      same sources under the same conditions
 R6.4 emodulus scenario precedence C > B > A from the folded priorities
+R6.7 the registry of external look-up tables is write-once (the hash holds
+     the LUT identifier only).
 R6.5 AncillaryFeature.hash digests req_features, req_config, req_func result
 R6.6 plugin features pass their three dependency lists on unchanged;
      temporary features are stored read-only and refresh hierarchy children
@@ -177,6 +179,9 @@ def analyse_instance(repo, inst, instances, resolver):
     ev = Evaluator(repo, mrel, presence, resolver=resolver,
                    feasible=feasible_and_record)
     ev.run(mfunc)
+    # a recipe whose requirements include those of a higher-priority
+    # sibling is never selected (no assumption needed to pre-empt it)
+    ev.recipe_dead = not feasible({})
     return ev, seen
 
 
@@ -217,6 +222,11 @@ def r61(ctx, repo, instances):
         total_paths += ev.paths
         total_inf += ev.paths_infeasible
         if ev.paths_feasible == 0:
+            if ev.recipe_dead:
+                ctx.note(f"{inst.label}: never selected – a higher-priority "
+                         f"recipe of '{inst.feature_name}' requires nothing "
+                         f"more; its reads are not judged")
+                continue
             raise AnalysisError(f"{inst.label}: no feasible path through "
                                 f"its compute function")
         rk, rev = req_func_kind(repo, inst, resolver)
@@ -787,6 +797,106 @@ def r66(ctx, repo):
            node=stores[0] if stores else stf, label="temp-feature read-only")
 
 
+# ----------------------------------------------------------------------
+# R6.7
+
+LUT_LOAD = "dclab/features/emodulus/load.py"
+
+
+def r67(ctx, repo):
+    """The hash of the emodulus recipes contains the *identifier* of the
+    look-up table ([calculation] 'emodulus lut'), not the table.  That is
+    only sound when an identifier denotes the same table for the life of the
+    process: the registry of external tables is write-once (a store is
+    reached only when the identifier is in neither registry), and nothing
+    else writes it."""
+    table = "EXTERNAL_LUTS"
+    repo.module_assign(LUT_LOAD, table)
+    writers = []
+    for rel in sorted(repo.files("dclab/")):
+        try:
+            tree = repo.tree(rel)
+        except AnalysisError:
+            continue
+        src_names = {table}
+        if rel != LUT_LOAD:
+            # only modules that can name the table
+            if table not in repo.src(rel):
+                continue
+        for n in ast.walk(tree):
+            tgt = None
+            if isinstance(n, (ast.Assign, ast.AugAssign, ast.AnnAssign)):
+                tgts = n.targets if isinstance(n, ast.Assign) else [n.target]
+                for t in tgts:
+                    if isinstance(t, ast.Subscript) and last_attr(
+                            t.value) == table or isinstance(
+                            t.value if isinstance(t, ast.Subscript) else None,
+                            ast.Name) and t.value.id == table:
+                        tgt = ("store", t, n)
+            elif isinstance(n, ast.Delete):
+                for t in n.targets:
+                    if isinstance(t, ast.Subscript) and table in txt(t.value):
+                        tgt = ("delete", t, n)
+            elif isinstance(n, ast.Call) and isinstance(
+                    n.func, ast.Attribute) and n.func.attr in (
+                    "update", "pop", "popitem", "clear", "setdefault",
+                    "__setitem__", "__delitem__") and (
+                    last_attr(n.func.value) == table or isinstance(
+                        n.func.value, ast.Name) and n.func.value.id == table):
+                tgt = (n.func.attr, n, n)
+            if tgt:
+                writers.append((rel, tgt))
+    if not writers:
+        raise AnalysisError("R6.7: no writer of EXTERNAL_LUTS found")
+    for rel, (kind, t, stmt) in writers:
+        fn = stmt
+        while fn is not None and not isinstance(fn, ast.FunctionDef):
+            fn = getattr(fn, "parent", None)
+        where = fn.name if fn is not None else "<module>"
+        if kind != "store" or fn is None or rel != LUT_LOAD:
+            ctx.ob("R6.7", False,
+                   f"{rel}::{where} modifies the registry of external LUTs "
+                   f"({kind}): an identifier that is part of a recipe hash "
+                   f"can come to denote another table", node=stmt,
+                   key=f"{rel}::{where}::{kind} {table}")
+            continue
+        key = txt(t.slice)
+        cfg = CFG(fn)
+        ids = cfg.ids_of(stmt)
+        for reg, label in ((table, "external"),
+                           ("get_internal_lut_names_dict()", "internal")):
+            def fact(e, truth, reg=reg):
+                if isinstance(e, ast.Compare) and len(e.ops) == 1 and txt(
+                        e.left) == key and txt(e.comparators[0]) == reg:
+                    if isinstance(e.ops[0], ast.In):
+                        return truth is False
+                    if isinstance(e.ops[0], ast.NotIn):
+                        return truth is True
+                return False
+            ok = all(guarded_by(cfg, i, fact) for i in ids)
+            ctx.ob("R6.7", ok,
+                   f"{where} stores a table only under an identifier that is "
+                   f"not yet an {label} one (write-once)" if ok else
+                   f"{where} can store a table under an identifier that is "
+                   f"already an {label} LUT identifier: datasets that "
+                   f"computed emodulus with the old table keep it (the hash "
+                   f"holds the identifier only)", node=stmt,
+                   key=f"{rel}::{where}::write-once {label}")
+        # the key is not re-bound between the test and the store
+        asg = [n for n in walk(fn) if isinstance(n, (ast.Assign, ast.AugAssign))
+               and key in {txt(x) for x in (n.targets if isinstance(
+                   n, ast.Assign) else [n.target])}]
+        late = [a for a in asg if a.lineno >= min(
+            (n.lineno for n in walk(fn) if isinstance(n, ast.Compare)
+             and txt(n.left) == key and table in txt(n.comparators[0])),
+            default=stmt.lineno)]
+        ctx.ob("R6.7", not late,
+               "the identifier is not re-bound after it was tested" if not
+               late else f"`{key}` is re-bound after the registry test",
+               node=late[0] if late else stmt,
+               key=f"{rel}::{where}::identifier stable", nontrivial=False)
+
+
 def run(ctx):
     repo = ctx.repo
     ctx.rule("R6.1", "per registered recipe: every value-affecting read of "
@@ -804,6 +914,8 @@ def run(ctx):
              "covers the container kinds", minimum=8)
     ctx.rule("R6.6", "plugin dependency lists passed on unchanged; "
              "temporary features read-only and refresh children", minimum=6)
+    ctx.rule("R6.7", "the registry of external look-up tables is write-once "
+             "(recipe hashes contain the LUT identifier only)", minimum=2)
     instances = fold_registry(repo)
     ctx.stat("registered recipes folded", len(instances))
     ctx.stat("recipes per module", {
@@ -819,6 +931,7 @@ def run(ctx):
     r64(ctx, instances)
     r65(ctx, repo)
     r66(ctx, repo)
+    r67(ctx, repo)
 
 
 def crossval(ctx):
@@ -863,6 +976,29 @@ def _drop(s, what):
 
 
 MUTANTS = [
+    ("LUT re-registration allowed for the same file name (seeded C06_9)",
+     LUT_LOAD,
+     ("    if identifier in EXTERNAL_LUTS:\n",
+      "    if (identifier in EXTERNAL_LUTS and pathlib.Path(\n"
+      "            EXTERNAL_LUTS[identifier]).name != pathlib.Path(path).name):\n"),
+     "R6.7"),
+    ("LUT registry check dropped", LUT_LOAD,
+     ("    if identifier in EXTERNAL_LUTS:\n"
+      "        raise ValueError(\"A LUT with an identifier '{}' \".format(identifier)\n"
+      "                         + \"has already been registered!\")\n"
+      "    elif identifier in", "    if identifier in"), "R6.7"),
+    ("case A recipes lose the viscosity model (seeded C06_8)",
+     FA + "af_emodulus.py",
+     [('                         req_config=[["calculation", vm + [\n'
+       '                                        "emodulus lut",\n'
+       '                                        "emodulus medium"]],',
+       '                         req_config=[["calculation", [\n'
+       '                                        "emodulus lut",\n'
+       '                                        "emodulus medium"]],'),
+      ('                                                "emodulus viscosity",\n'
+       '                                                "emodulus viscosity model"]]',
+       '                                                "emodulus viscosity"]]')],
+     "R6.1"),
     ("area_um: pixel size not declared", FA + "af_basic.py",
      ('                     req_config=[["imaging", ["pixel size"]]],\n'
       '                     req_features=["area_cvx"])',
